@@ -705,7 +705,7 @@ class Engine:
         (used for the float64 validation run: a tie exactly on a branch boundary is where float rounding flips a branch)."""
         strict, margin, fact_terms = [], [], []
         small_used = False
-        mu = z3.RealVal("1/100")  # above the tolerance of the concrete comparisons (1e-7 + 1e-6 |x|) for |x| <= 1000
+        mu = z3.RealVal("1/97")  # (not a round number: models built from it are not 2-decimal or integral by accident) above the tolerance of the concrete comparisons (1e-7 + 1e-6 |x|) for |x| <= 1000
         for key, mask in self.facts.items():
             t = to_z3(dict(key))
             if mask in (3, 6):
@@ -769,7 +769,7 @@ class Engine:
                             continue
                         if i >= n_facts:
                             continue
-                        for k, small in enumerate(("1/10000", "1/1000000")):
+                        for k, small in enumerate(("1/9973", "1/999983")):
                             # the same fact with a smaller margin
                             fact = fact_terms[i]
                             sm = z3.RealVal(small)
